@@ -12,13 +12,28 @@ tvars == <<tid, l, dm, period>>
 H  == Traces[tid].hdr
 Ev == Traces[tid].ev
 
-Implied(d, q) == [i \in 1..H.nints |-> [j \in 1..H.nbands |-> (H.sdm[d][j] + H.sp[q][i]) % H.nbins]]
+(* The drift a period target implies, from the documented relation (not from the code):
+     dbins = (P_new/P_fold - 1) * tobs * nbins / P_fold        (supplied exactly as H.dbn[q] / H.dbd)
+     sub-integration i (0-based) drifts by round(i * dbins / nints) bins.
+   At an exact half the two neighbours are both admitted. *)
+DriftSet(q, i) ==
+  LET num == (i - 1) * H.dbn[q]
+      den == H.dbd * H.nints
+      k   == (2 * num + den) \div (2 * den)                      \* floor(x + 1/2)
+  IN IF (2 * num + den) % (2 * den) = 0 THEN {k, k - 1} ELSE {k}
+Mod(x) == x % H.nbins
+(* rotation of profile (i, j) implied by the targets: the DM part from the table measured on a fresh cube
+   (the dispersion law itself is C09), the period part from DriftSet *)
+ImpliedOK(rot, d, q) ==
+  \A i \in 1..H.nints : \A j \in 1..H.nbands :
+     \E dr \in DriftSet(q, i) : rot[i][j] = Mod(H.sdm[d][j] + dr)
 
 Step(e) ==
   /\ e.outcome = "ok"
   /\ dm' = (IF e.op = "dm" THEN e.target ELSE dm)
   /\ period' = (IF e.op = "period" THEN e.target ELSE period)
-  /\ e.rot = Implied(dm', period')                 \* history-free, rotation only
+  /\ Len(e.rot) = H.nints /\ \A i \in 1..H.nints : Len(e.rot[i]) = H.nbands
+  /\ ImpliedOK(e.rot, dm', period')                \* history-free, rotation only
   /\ e.rep_dm = dm' /\ e.rep_period = period'      \* the reported DM and period describe the data
 
 TInit == tid \in 1..NT /\ l = 1 /\ dm = 1 /\ period = 1 /\ MarkInit(tid)
